@@ -2016,7 +2016,22 @@ class ExpressionEvaluator(Parser):
         # Convert from character literals to integer value.
         try:
             constant = self.match_type(CharacterConstant)
-            return np.int64(ord(constant.token))
+            value = constant.token
+            if len(value) == 2 and value[0] == "\\":
+                # Simple and single-digit octal escape sequences.
+                escapes = {
+                    "a": 7,
+                    "b": 8,
+                    "f": 12,
+                    "n": 10,
+                    "r": 13,
+                    "t": 9,
+                    "v": 11,
+                }
+                if value[1] in "01234567":
+                    return np.int64(int(value[1], 8))
+                return np.int64(escapes.get(value[1], ord(value[1])))
+            return np.int64(ord(value))
         except ParseError:
             self.pos = initial_pos
 
